@@ -60,7 +60,7 @@ def _random(draw):
             perm = draw(st.permutations(list(range(n))))
             pos = {v: i for i, v in enumerate(perm)}
             edges = [[a, b] if pos[a] < pos[b] else [b, a] for a, b in edges if a != b]
-        return {"kind": "graph", "n": n, "edges": edges, "names": draw(st.booleans()), "insertion": list(draw(st.permutations(list(range(n))))),
+        return {"kind": "graph", "n": n, "edges": edges, "names": draw(st.sampled_from([True, False, "colliding"])), "insertion": list(draw(st.permutations(list(range(n))))),
                 "lists": draw(st.booleans())}
     nf = draw(st.integers(1, 5))
     fams = [f"g{i}" for i in range(nf)]
@@ -100,7 +100,8 @@ def check(case):
             raise Violation("prec_graph.orderings", observed=sorted(got)[:3], expected=sorted(exp)[:3], extra={"n_got": len(got), "n_exp": len(exp)})
         return Result(len(exp) != 1 and len(fams) >= 2, ["prec", "no_order" if not exp else "orders>=1"], evals=1)
     n = case["n"]
-    name = (lambda v: f"v{v}") if case.get("names") else (lambda v: v)
+    pool = ["a", "b", "ab", "ba", "aa", "abb", "bab"]
+    name = (lambda v: f"v{v}") if case.get("names") is True else ((lambda v: pool[v % 7]) if case.get("names") == "colliding" and n <= 7 else (lambda v: v))
     # a graph is a dictionary: the order in which its vertices were inserted is presentation, not content (the
     # insertion order is a permutation derived from the case; successors are given as sets or, when `lists`, as lists)
     order = list(range(n))
